@@ -142,7 +142,7 @@ def run(pid, tier, replay=None):
         c10.legs(c, "C01", tier)        # producer 3: retain on a well-formed registry
         builder_leg(c, tier)            # producer 2: the runtime builder (producer 4, decode(encode(.)), rides on the traces above)
     c.cov["exhaustive"] = True
-    c.cov["rule"] = ("design: all universes on 3 identities with <=2 ordered children (2197 graphs, alias spellings on edges, 11 definition shapes) x all histories of 3 registrations%s; "
+    c.cov["rule"] = ("design: all universes on 3 identities with <=2 ordered children (2197 graphs, alias spellings on edges, every definition kind incl. empty arrays, marker types, parameters with and without a type on composite / sequence / tuple definitions, raw-identifier paths) x all histories of 3 registrations%s; "
                      "spec->impl: every terminal behaviour replayed through runtime-configurable Node<I> types on the real Registry; "
                      "impl->spec: %d seeded random universes (<=12 identities, all 8 kinds, cycles, wrappers incl. wrappers of wrappers, phantoms) with register_type/register_types/map_into_portable histories, validated by TLC under acceptor %s") % (" incl. register_types" if many else "", cnt, pid)
     c.assumptions += ["small-scope hypothesis (3 identities exhaustively, 12 randomly)", "the harness's Node<I> types are a faithful stand-in for arbitrary user TypeInfo impls",
